@@ -6,7 +6,9 @@ Spec/GbLayout.lean `layoutFile`, so the text the real parser sees lies in the th
 from common import *
 import string
 
-RULE = ("(locations: spans, single bases, complement, join, and the INSDC forms order/bond/gap/one-of, n.m, n^m, remote "
+RULE = ("(LOCUS: each of the twelve molecule types or none, topology / division / date / stated length present or absent, trailing "
+        "blanks; REFERENCE with an empty range written with or without the two blanks; keys over all visible characters; "
+        "quotation marks inside qualifier values) (locations: spans, single bases, complement, join, and the INSDC forms order/bond/gap/one-of, n.m, n^m, remote "
         "acc.v:a..b as text; qualifiers quoted, unquoted, value-less, keys with capitals and digits, repeated keys; empty standard "
         "blocks written or left out; extra keyword blocks in any of the 7 slots between LOCUS and FEATURES) "
         "abstract records laid out by the independent writer of Spec/GbLayout.lean: sequence 1..2000 letters (quick; a few to 2*10^4) "
@@ -36,6 +38,10 @@ WORDS = ("the of and a to in is for gene protein synthetic construct vector clon
          "linear circular PRI BCT bp").split(" ")
 TRAPS = ["AUTHORS", "TITLE", "JOURNAL", "PUBMED", "REMARK", "ORGANISM", "LOCUS", "DEFINITION", "ACCESSION", "VERSION",
          "KEYWORDS", "SOURCE", "REFERENCE", "FEATURES", "ORIGIN", "COMMENT", "path//"]
+MOL4 = ["DNA", "mRNA", "tRNA", "rRNA"]
+MOL12 = ["DNA", "genomic DNA", "genomic RNA", "mRNA", "tRNA", "rRNA", "other RNA", "other DNA", "transcribed RNA", "viral cRNA",
+         "unassigned DNA", "unassigned RNA"]
+DIVS = "PRI ROD MAM VRT INV PLN BCT VRL PHG SYN UNA EST PAT STS GSS HTG HTC ENV".split()
 MONTHS = "JAN FEB MAR APR MAY JUN JUL AUG SEP OCT NOV DEC".split()
 FKEYS = ["source", "gene", "CDS", "misc_feature", "primer_bind", "promoter", "rep_origin", "5'UTR", "-10_signal", "tRNA", "D-loop", "x",
          "a/b", "x=y", "/odd", "k\"q", "#1", "15_characters__"]
@@ -201,12 +207,21 @@ def record(r, tier, big=False, trap=0.001, small=False, repeat=False):
         if r.random() < 0.5 else r.choice(string.ascii_lowercase) + randword(r, string.ascii_lowercase + string.digits + "_", r.randint(0, 15))
     if r.random() < 0.1:     # beyond the property's lower-case names (the theorem covers every blank-free name)
         name = r.choice(["AB000100", "DNA", "mRNA_1", "pUC19", "PRI", "12", "20-JAN-2020", "LOCUS", "a.b-c/d", "BCT9"])
-    mol, topo, div = r.randint(0, 3), r.randint(0, 1), r.randint(0, 17)
+    mol, topo, div = MOL4[r.randint(0, 3)], r.randint(0, 1), DIVS[r.randint(0, 17)]
     if name in ("linear", "circular") and r.random() < 0.8:
         topo = 1 if name == "linear" else 0       # mostly the harmless combination
     date = "%02d-%s-%04d" % (r.randint(1, 31), r.choice(MONTHS), r.randint(1980, 2026))
+    length = str(n)
+    if r.random() < 0.2:
+        # beyond the four molecule types of the property: any of the twelve, fields absent, a stated length that is
+        # not the number of bases (records assembled by a program)
+        mol = r.choice(MOL12 + [""])
+        if r.random() < 0.4: topo = 2
+        if r.random() < 0.4: div = ""
+        if r.random() < 0.4: date = ""
+        if r.random() < 0.5: length = r.choice(["", "0", "7", "12", "007", str(n + 1), "123456789012"])
     pads = r.choice([[6, 15, 3, 4, 1, 0], [0, 0, 0, 0, 0, 0], [r.randint(0, 11) for _ in range(6)], [], [r.randint(0, 40) for _ in range(6)]])
-    f = [name, str(mol), str(topo), str(div), date, nats(pads), str(r.randint(0, 1))]
+    f = [name, length, mol, str(topo), div, date, nats(pads), str(r.choice([0, 0, 0, 5, 1])), str(r.randint(0, 1))]
     bl, pl = r.choice([(9, 5), (9, 5), (9, 5), (r.randint(0, 14), r.randint(0, 7))])
     f += [str(bl), str(pl)]
     nex = r.choice([0, 0, 1, 1, 2, 3, 4])
@@ -228,7 +243,7 @@ def record(r, tier, big=False, trap=0.001, small=False, repeat=False):
     f.append(str(nrefs))
     for _ in range(nrefs):
         rng_ = r.choice(["", "(bases 1 to %d)" % n, "(sites)", "(bases 1 to %d; 3 to 4)" % n])
-        f += [rng_, nats(breaks(r, rng_, 16))]
+        f += [rng_, nats(breaks(r, rng_, 16)), str(r.randint(0, 1))]
         for kw, mx in (("AUTHORS", 30), ("TITLE", 30), ("JOURNAL", 20), ("PUBMED", 1), ("REMARK", 15)):
             t = "" if r.random() < 0.3 else text(r, r.randint(1, mx), trap)
             f += [t, nats(breaks(r, t, 12))]
@@ -269,8 +284,8 @@ def record(r, tier, big=False, trap=0.001, small=False, repeat=False):
 def with_features(rec, feats):
     """replace the feature table of a record (field list) by the given features (each a field list)"""
     # fields: 11 header fields, 12 meta fields, refs, extras, features, seq
-    i = 11 + 12
-    nrefs = int(rec[i]); i += 1 + 12 * nrefs
+    i = 13 + 12
+    nrefs = int(rec[i]); i += 1 + 13 * nrefs
     nex = int(rec[i]); i += 1 + 3 * nex
     out = rec[:i] + [str(len(feats))]
     for ft in feats:
@@ -294,11 +309,21 @@ def cases(seed, tier):
             for div in range(18):
                 k += 1
                 rec = record(r, tier, small=True, trap=0.0)
-                rec[1], rec[2], rec[3] = str(mol), str(topo), str(div)
+                rec[2], rec[3], rec[4] = MOL4[mol], str(topo), DIVS[div]
                 if rec[0] in ("linear", "circular"):
                     rec[0] = "name%d" % k
                 rec[-1] = randword(r, "acgt", k)
+                rec[1] = str(k)
                 yield mk("parse", k % 2 == 0, False, [rec])
+    # each of the twelve molecule types or none x topology or none, with and without division / date / length
+    for mol in MOL12 + [""]:
+        for topo in (0, 1, 2):
+            rec = record(r, tier, small=True, trap=0.0)
+            rec[2], rec[3] = mol, str(topo)
+            if r.random() < 0.5: rec[4] = ""
+            if r.random() < 0.5: rec[5] = ""
+            if r.random() < 0.5: rec[1] = ""
+            yield mk("parse", True, False, [rec])
     n = 900 if tier == "quick" else 12000
     for i in range(n):
         m = r.random()
@@ -327,21 +352,25 @@ def cases(seed, tier):
     for n in (7, 10, 20, 99):
         for g in (1, 2, 17):
             rec = record(r, tier, small=True, trap=0.0)
-            rec[5] = "6,%d,3,4,2,0" % g
+            rec[6] = "6,%d,3,4,2,0" % g
             rec[-1] = randword(r, "acgt", n)
+            rec[1] = str(n)
             yield mk("parse", True, False, [rec])
     # files with one record of more than 64 KiB (first / in the middle), through ParseMulti and ParseFlat
     for mode, fnl, pos in (("multi", True, 0), ("multi", False, 1), ("flat", True, 1), ("flat", False, 0), ("readmulti", True, 1)):
         recs = [record(r, tier, small=True) for _ in range(3)]
         big = record(r, tier, small=True)
         big[-1] = randword(r, "acgt", r.randint(60000, 70000))
+        big[1] = str(len(big[-1]))
         recs[pos] = big
         yield mk(mode, fnl, mode.startswith("flat"), recs)
     # large sequences
     for i in range(3 if tier == "quick" else 40):
         yield mk(r.choice(["parse", "multi", "flat"]) if i else "parse", r.random() < 0.5, False, [record(r, tier, big=True)])
     if tier == "thorough":
-        yield mk("parse", True, False, [record(r, tier, big=True)[:-1] + [randword(r, "acgt", 100000)]])
+        rec = record(r, tier, big=True)
+        rec[-1] = randword(r, "acgt", 100000); rec[1] = "100000"
+        yield mk("parse", True, False, [rec])
     # trap words made frequent (known-finding classes are exercised on purpose)
     for i in range(40 if tier == "quick" else 600):
         yield mk("parse", True, False, [record(r, tier, small=True, trap=0.08)])
